@@ -7,8 +7,50 @@
 use super::common::*;
 use super::{Ctx, PropertyDef, Scenario, COMMON_ASSUMPTIONS};
 use crate::harness::kit::*;
+use crate::harness::ilv::{program_scenario, Oracle, Program, Run};
 use crate::harness::seq::*;
 use std::sync::Arc;
+
+/// ilv: valid calls racing the sweeper / the worker / shutdown. Panics on a background thread and workers that
+/// stop answering fail the execution and are reported by the engine; caller panics are caught per call. The
+/// oracle itself only checks that the liveness probes of the epilogue were answered.
+fn ilv_oracle() -> Oracle {
+    Arc::new(|run: &Run, out: &mut Vec<crate::harness::ilv::Finding>| {
+        if !run.program.has_shutdown() {
+            if let Some(p) = run.calls.iter().find(|c| c.thread == PHASE_POST && matches!(c.op, Op::Put { .. })) {
+                if run.status_of(PHASE_POST, p.idx).is_none() {
+                    out.push(crate::harness::ilv::Finding::new("worker-liveness", "liveness:worker-did-not-answer-probe", format!("{} was never acknowledged", p.short())));
+                }
+            }
+        }
+    })
+}
+
+fn ilv_programs() -> Vec<Program> {
+    let mut v = Vec::new();
+    let mk = |name: &str, w: i64, init: Vec<Op>, threads: Vec<Vec<Op>>| {
+        let mut p = Program::new(name);
+        p.setup = Setup { weight: w, queue: 1, pool: 1, buffer: 1, counters: 2, ..Setup::default() };
+        p.init = init;
+        p.threads = threads;
+        // probes: the worker answers a put, the sweeper finishes a sweep, the consumer applies a batch
+        p.post = vec![put(4, 1), Op::TickWait, get(4), get(4)];
+        p
+    };
+    let ups = |k: K, value: bool, w: Option<i64>, ttl: Option<u64>, rm: bool| Op::Upsert { k, value, w, ttl_ms: ttl, remove_ttl: rm };
+    // an expired key leaves the expiry index (delete / TTL change / TTL removal) while the sweeper is at work
+    v.push(mk("delete(a);delete(b) || {tick} (a, b expired)", 100, vec![put_ttl(1, 30, 1000), put_ttl(2, 30, 1000), adv(3000)], vec![vec![del(1), del(2)], vec![Op::Tick]]));
+    v.push(mk("upsert(a,ttl 9s);upsert(b,remove ttl) || {tick} (a, b expired)", 200, vec![put_ttl(1, 30, 1000), put_ttl(2, 30, 1000), adv(3000)], vec![vec![ups(1, true, Some(30), Some(9000), false), ups(2, true, Some(30), None, true)], vec![Op::Tick]]));
+    v.push(mk("put_ttl(c, ttl 0);get(c) || {tick} || delete(a)", 100, vec![put_ttl(1, 30, 1000), adv(3000)], vec![vec![put_ttl(3, 1, 0), get(3)], vec![Op::Tick], vec![del(1)]]));
+    {
+        let mut p = mk("shutdown || {tick} (a expired) || upsert(a, ttl 1ns)", 100, vec![put_ttl(1, 30, 1000), adv(3000)], vec![vec![Op::Shutdown], vec![Op::Tick], vec![ups(1, true, None, Some(TTL_ONE_NANO), false)]]);
+        p.post = vec![get(1)];
+        p.quiesce_sweeps = false;
+        v.push(p);
+    }
+    v.push(mk("evicting-put(c, w=W) || get(a);get(a) || {tick}", 3, vec![put_ttl(1, 2, 1000), put(2, 1), adv(3000)], vec![vec![put(3, 3)], vec![get(1), get(2)], vec![Op::Tick]]));
+    v
+}
 
 fn oracle() -> SeqOracle {
     Arc::new(|run: &SeqRun, out: &mut Vec<Finding>| {
@@ -82,13 +124,17 @@ pub fn def(ctx: &Ctx) -> PropertyDef {
         let name = spec(ctx, w, c).name;
         scenarios.push(seq_scenario(move |cx| spec(cx, w, c), &name));
     }
+    for p in ilv_programs() {
+        let nthreads = p.threads.len();
+        scenarios.push(program_scenario(p, ilv_oracle(), move |c| crate::harness::ilv::tier_cfg(c, nthreads)));
+    }
     let mut assumptions = COMMON_ASSUMPTIONS.to_vec();
     assumptions.push("exhaustive over the listed boundary values and their orders, not over i64 / Duration; built with overflow checks on (as in the debug builds the repository's tests use) so that wrapping arithmetic surfaces as a panic");
     assumptions.push("all arguments satisfy the documented preconditions: weights > 0, well-formed upsert requests that carry a value");
     PropertyDef {
         id: "C17",
-        technique: "explicit-state model checking of the real code over a boundary-value alphabet: BFS over operation sequences, every call wrapped in catch_unwind, background-thread panics and dead workers fail the execution; real code",
-        rule: "seq: all histories over the boundary alphabet up to the depth; distinct_nontrivial = canonical states first reached at depth >= 2",
+        technique: "explicit-state model checking of the real code over a boundary-value alphabet (BFS over operation sequences, every call wrapped in catch_unwind, background-thread panics and dead workers fail the execution) + stateless preemption-bounded model checking of valid calls racing the sweeper, the worker and shutdown",
+        rule: "seq: all histories over the boundary alphabet up to the depth (distinct_nontrivial = canonical states first reached at depth >= 2); ilv: every schedule up to the bound",
         assumptions,
         scenarios,
     }
